@@ -165,7 +165,12 @@ func check(c Case) evid.Outcome {
 			return evid.Viol("data changed the markup structure (scripting=%v)\ntemplate: %q\ndata: %+v\noutput:       %q\ninert output: %q\nskeleton:       %s\ninert skeleton: %s", scripting, text, c.Data, out, outI, sh, si)
 		}
 		if hasComment(sh) {
-			return evid.Viol("output contains a comment token (scripting=%v)\ntemplate: %q\ndata: %+v\noutput: %q", scripting, text, c.Data, out)
+			v := evid.Viol("output contains a comment token (scripting=%v)\ntemplate: %q\ndata: %+v\noutput: %q", scripting, text, c.Data, out)
+			if hasFlag(c.Prog.Flags, "zone:K-endsplit") {
+				// the engine believes to be inside the special element still and does not strip the comment
+				v.Finding = "K-endsplit"
+			}
+			return v
 		}
 	}
 	// relation 1: the author's markup (reference reading: scripting disabled)
@@ -222,7 +227,16 @@ func genSplice(t *rapid.T) Case {
 	o := tmpl.DefaultOptions
 	o.MaxDepth, o.MaxItems = 2, 3
 	p := tmpl.Generate(t, o)
-	tmpl.Splice(t, p, 3)
+	switch rapid.IntRange(0, 2).Draw(t, "mutation") {
+	case 0:
+		tmpl.Splice(t, p, 3)
+	case 1:
+		// a balanced region (template nodes included) wrapped into a control structure or moved into a helper
+		tmpl.Region(t, p)
+	default:
+		tmpl.Region(t, p)
+		tmpl.Splice(t, p, 2)
+	}
 	return Case{Prog: *p, Data: tmpl.Bind(t, p)}
 }
 
